@@ -152,7 +152,15 @@ func runSolver(ctx context.Context, s solverSpec, file string, timeout int) solv
 	out, _ := cmd.CombinedOutput()
 	secs := time.Since(start).Seconds()
 	text := string(out)
-	first := strings.TrimSpace(strings.SplitN(strings.TrimSpace(text), "\n", 2)[0])
+	first := ""
+	for _, l := range strings.Split(text, "\n") {
+		l = strings.TrimSpace(l)
+		if l == "" || strings.HasPrefix(l, "WARNING") || strings.HasPrefix(l, "(warning") {
+			continue
+		}
+		first = l
+		break
+	}
 	res := "error"
 	switch {
 	case first == "unsat":
